@@ -946,6 +946,16 @@ func TestReplay(t *testing.T) {
 	if p == "" {
 		t.Skip()
 	}
+	var nm struct {
+		NoMem *noMemCase `json:"nomem"`
+	}
+	if _, err := evid.LoadReplay(p, &nm); err == nil && nm.NoMem != nil {
+		if msg := runNoMem(nm.NoMem); msg != "" {
+			evid.Violation("replay", nm, "%s", msg)
+			t.Fatal(msg)
+		}
+		return
+	}
 	var c Case
 	if _, err := evid.LoadReplay(p, &c); err != nil {
 		t.Fatal(err)
